@@ -141,8 +141,13 @@ func newGenericObjectSetController(
 
 	sliceLoadReconciler := newObjectSliceLoadReconciler(scheme, client, newObjectSlice)
 
+	// Teardown must not wait for ObjectSlices that are already gone:
+	// their objects can no longer be known and nothing would ever bring the slice back.
+	teardownSliceLoadReconciler := newObjectSliceLoadReconciler(scheme, client, newObjectSlice)
+	teardownSliceLoadReconciler.skipMissing = true
+
 	controller.teardownHandler = &sliceLoadingTeardownHandler{
-		sliceLoader:     sliceLoadReconciler,
+		sliceLoader:     teardownSliceLoadReconciler,
 		teardownHandler: phasesReconciler,
 	}
 
